@@ -70,7 +70,10 @@ func streamAddr(c *ctx) {
 		out := parseAddrAs(role, s)
 		w.Emit("addr-parse "+role+" "+cases.Hex([]byte(s)), out, tag, "addr/"+role, "addr-res/"+strings.SplitN(out, " ", 2)[0])
 	}
-	ips := [][4]byte{{192, 168, 1, 100}, {0, 0, 0, 0}, {255, 255, 255, 255}, {10, 0, 0, 1}, {1, 22, 133, 4}}
+	// ordinary, wildcard, broadcast, private, loopback, link-local, multicast, CGNAT, class E: the port rules are the
+	// same for every address
+	ips := [][4]byte{{192, 168, 1, 100}, {0, 0, 0, 0}, {255, 255, 255, 255}, {10, 0, 0, 1}, {1, 22, 133, 4}, {127, 0, 0, 1}, {127, 255, 255, 254},
+		{169, 254, 1, 1}, {224, 0, 0, 1}, {100, 64, 0, 1}, {240, 0, 0, 1}, {172, 16, 0, 1}, {192, 168, 1, 255}}
 	// every port, every role (thorough: all 65536; quick: boundaries + a stride)
 	for _, role := range addrRoles {
 		for p := 0; p < 65536; p++ {
@@ -79,6 +82,12 @@ func streamAddr(c *ctx) {
 			}
 			ip := ips[p%len(ips)]
 			emitParse(role, fmt.Sprintf("%d.%d.%d.%d:%d", ip[0], ip[1], ip[2], ip[3], p), "parse/canonical-addr-port")
+		}
+		for _, ip := range ips {
+			for _, p := range []int{0, 1, 59999, 60000, 60001, 65535} {
+				emitParse(role, fmt.Sprintf("%d.%d.%d.%d:%d", ip[0], ip[1], ip[2], ip[3], p), "parse/special-address-boundary-port")
+			}
+			emitParse(role, fmt.Sprintf("%d.%d.%d.%d", ip[0], ip[1], ip[2], ip[3]), "parse/special-address")
 		}
 		// format then parse for the special addresses (0.0.0.0, 255.255.255.255 ...) under boundary ports
 		for _, ip := range ips {
